@@ -241,7 +241,7 @@ class C10(Prop):
                 extra = fa + (2 if retried and any(w["on_timeout"] == "raise" and w["timeout"] for w in inp["waits"]) else 0)
                 bound = 1 + len(inp["waits"]) + extra if seg == 0 else 2 + 2 * len(inp["waits"]) + 2 * extra
                 if len(es) > bound:
-                    r.v("too_many_replays", resumed=resumed, life=seg, entries=len(es), bound=bound, req_wait_pending_at_snapshot=rp)
+                    r.v("too_many_replays", resumed=resumed, life=seg, entries=len(es), bound=bound, req_wait_pending_at_snapshot=rp, step_completed_twice=len(comps) > 1)
             c0 = [e for e in ents if e["seg"] == 0 and e["exit"] == "returned"]
             c1 = [e for e in ents if e["seg"] == 1]
             if c0 and snap_t is not None and c0[0]["t_out"] < snap_t and c1:
